@@ -234,6 +234,12 @@ void CPCA(tensor *x, int scaling, size_t npc, CPCAMODEL *model)
       t->data[i] = Eb->m[best_block_id]->data[i][best_colvar_id];
     }
 
+    /* no variance left in any block (more components than the rank): the component does not exist */
+    if(DVectorDVectorDotProd(t, t) == 0.f){
+      DelDVector(&t);
+      break;
+    }
+
     niter = 0;
     while(1){ /* loop until convergence of t */
       for(k = 0; k < Eb->order; k++){
@@ -245,8 +251,10 @@ void CPCA(tensor *x, int scaling, size_t npc, CPCAMODEL *model)
 
        /*
         * normalize pb to pb = 1 (step 3)
+        * A block without variance left (e.g. a constant block) has null loadings: keep them null.
         */
-        DVectNorm(p_b, p_b);
+        if(DvectorModule(p_b) > 0.f)
+          DVectNorm(p_b, p_b);
 
        /*
         * tb = Xb x p_b / cpca_scaling_factor_calculated_in_step_1
@@ -329,7 +337,10 @@ void CPCA(tensor *x, int scaling, size_t npc, CPCAMODEL *model)
           MatrixTranspose(Eb->m[k], Eb_T);
           NewMatrix(&Eb_T_E, Eb->m[k]->col, Eb->m[k]->col);
           MatrixDotProduct(Eb_T, Eb->m[k], Eb_T_E); /*SLOW ISNAN TEST +1SEC*/
-          local_blockvexp->data[k] = (1.f-(MatrixTrace(Eb_T_E)/tr_orig->data[k]))*100.;
+          if(tr_orig->data[k] > 0.f)
+            local_blockvexp->data[k] = (1.f-(MatrixTrace(Eb_T_E)/tr_orig->data[k]))*100.;
+          else /* block without variance: nothing to explain */
+            local_blockvexp->data[k] = 0.f;
           DelMatrix(&Eb_T_E);
           DelMatrix(&Eb_T);
 
